@@ -99,9 +99,9 @@ theorem runParser_progress (p : Parser) (m : FlowMsg) (d : Bytes) (pc : PC)
 /-- without layer mappings ParsePacket never fails: no error, no panic, and the loop ends within
     2·|data| + 3 iterations -/
 theorem parseLoop_safe (cfg : Config) (hcfg : cfg.layers = []) (data : Bytes) (fuel : Nat) (next : Next) (offset : Nat)
-    (encap : Bool) (calls : List (Nat × Nat)) (m : FlowMsg) (hf : mu data.length next offset + 1 ≤ fuel) :
-    ∃ m', parseLoop cfg data fuel next offset encap calls m = .ok m' := by
-  induction fuel generalizing next offset encap calls m with
+    (encap : Bool) (encapIndex : Nat) (calls : List (Nat × Nat)) (m : FlowMsg) (hf : mu data.length next offset + 1 ≤ fuel) :
+    ∃ m', parseLoop cfg data fuel next offset encap encapIndex calls m = .ok m' := by
+  induction fuel generalizing next offset encap encapIndex calls m with
   | zero => omega
   | succ fuel ih =>
     unfold parseLoop
